@@ -4,6 +4,7 @@ mod smoke;
 mod light;
 mod rooms;
 mod c01;
+mod c07;
 mod c10;
 
 fn main() {
@@ -12,6 +13,7 @@ fn main() {
         "smoke" => smoke::run(&args),
         "C01" => c01::run(&args),
         "C10" => c10::run(&args),
+        "C07" => c07::run(&args),
         other => {
             eprintln!("unknown property {}", other);
             2
